@@ -41,6 +41,11 @@ type ReadWrite struct {
 
 	finalized bool // also protected by ronly.mu
 
+	// writeErr is the first error returned by a write of a section. After such a failure
+	// the payload may end in a partially written section and the writer position is past
+	// it, so appending more sections or finalizing would produce a corrupt archive.
+	writeErr error // also protected by ronly.mu
+
 	opts carv2.Options
 }
 
@@ -202,6 +207,9 @@ func (b *ReadWrite) PutMany(ctx context.Context, blks []blocks.Block) error {
 	if b.finalized {
 		return errFinalized
 	}
+	if b.writeErr != nil {
+		return fmt.Errorf("cannot write in a carv2 blockstore after a failed write: %w", b.writeErr)
+	}
 
 	for _, bl := range blks {
 		c := bl.Cid()
@@ -221,6 +229,7 @@ func (b *ReadWrite) PutMany(ctx context.Context, blks []blocks.Block) error {
 
 		n := uint64(b.dataWriter.Position())
 		if err := util.LdWrite(b.dataWriter, c.Bytes(), bl.RawData()); err != nil {
+			b.writeErr = err
 			return err
 		}
 		b.idx.InsertNoReplace(c, n)
@@ -268,6 +277,9 @@ func (b *ReadWrite) FinalizeReadOnly() error {
 }
 
 func (b *ReadWrite) finalizeReadOnlyWithoutMutex() error {
+	if b.writeErr != nil && !b.finalized && !b.ronly.closed {
+		return fmt.Errorf("cannot finalize a carv2 blockstore after a failed write: %w", b.writeErr)
+	}
 	if b.opts.WriteAsCarV1 {
 		// all blocks are already properly written to the CARv1 inner container and there's
 		// no additional finalization required at the end of the file for a complete v1
